@@ -163,6 +163,20 @@ func c14Labels(wi int, blk [3]int) (uint64, uint64) {
 
 // c14Fill returns the 16^3 voxels (x fastest) of one block.
 func c14Fill(fill string, wi int, blk [3]int) []uint64 {
+	if strings.HasPrefix(fill, "mirror-") {
+		// the content the FIRST write gave this block, mirrored in X inside the block: every label keeps its voxel count
+		// in the block, only the positions change
+		base := c14Fill(strings.TrimPrefix(fill, "mirror-"), 0, blk)
+		v := make([]uint64, len(base))
+		for z := 0; z < c14B; z++ {
+			for y := 0; y < c14B; y++ {
+				for x := 0; x < c14B; x++ {
+					v[(z*c14B+y)*c14B+x] = base[(z*c14B+y)*c14B+(c14B-1-x)]
+				}
+			}
+		}
+		return v
+	}
 	a, b := c14Labels(wi, blk)
 	odd := (c14Mod(blk[0], 2)+c14Mod(blk[1], 2)+c14Mod(blk[2], 2))%2 == 1
 	v := make([]uint64, c14B*c14B*c14B)
@@ -1006,6 +1020,25 @@ func c14Enumerate(thorough bool) []c14Family {
 			}
 		}
 		add(fmt.Sprintf("B:depth2:L1:P%v", P), jobs)
+		// a mutating second write that only moves voxels around inside a block (same labels, same counts per block)
+		var mjobs []c14Job
+		for _, f1 := range []string{"subblock", "zeros"} {
+			for _, s1 := range []int{1, 8, 128, 255} {
+				for o := 0; o < 8; o++ {
+					if s1&(1<<uint(o)) == 0 {
+						continue
+					}
+					for _, m2 := range []string{"rawmut", "rawmutbox"} {
+						for _, child := range []bool{false, true} {
+							mjobs = append(mjobs, c14Job{L: 1, T: P, W: []c14W{
+								{Mode: "blocks", Blocks: c14Octants(P, s1), Fill: f1},
+								{Mode: m2, Blocks: c14Octants(P, 1<<uint(o)), Fill: "mirror-" + f1, Child: child}}})
+						}
+					}
+				}
+			}
+		}
+		add(fmt.Sprintf("B2:rearrange-in-block:L1:P%v", P), mjobs)
 	}
 
 	// C. splits confined to one octant, L=1 and L=2: content by one write (all eight octants or only the split octant),
